@@ -57,7 +57,11 @@ def layout_tables(lay):
     prio = [int(p) for p in ego.channel_priority]
     azel = [[float(c.polar_position.azimuth), float(c.polar_position.elevation)] for c in lay.channels]
     allo = [[float(v) for v in row] for row in allocentric.positions_for_layout(lay)]
-    return dict(n=n, names=list(lay.channel_names), spk=spk, groups=groups, prio=prio, azel=azel, allo=allo)
+    from ear.core.point_source import AllocentricPanner
+
+    tree = [[[int(leaf[0]) for leaf in row] for row in pl]
+            for pl in AllocentricPanner(allocentric.positions_for_layout(lay)).st]
+    return dict(tree=tree, n=n, names=list(lay.channel_names), spk=spk, groups=groups, prio=prio, azel=azel, allo=allo)
 
 
 def groups_tokens(groups):
@@ -82,6 +86,11 @@ class C13(Spec):
             "cart_excluded_gain_zero_on_final_mask", "cart_reset_characterised", "cart_zone_not_silent_witness",
             "lock_returns_speaker_position", "lock_limit", "lock_index_valid", "lock_one_speaker_partial",
             "screen_identity", "zero_laws_real", "polar_render_defined",
+            # round 2: the Cartesian path composed, allocentric exactness, polar lock with C05, compensate_position
+            "cart_lock_target_not_excluded", "allo_exact_at_speaker", "cart_lock_one_speaker", "tables_allo_ok",
+            "allo_exact_at_speaker_layouts", "polar_tables_every_speaker_is_vertex", "polar_lock_one_speaker_partial",
+            "polar_lock_one_speaker_quad_partial", "interp4_identity", "compensate_identity_without_U045",
+            "compensate_identity_at_el0",
         )
     )
     trusted_base = (
@@ -132,7 +141,8 @@ class C13(Spec):
             "namespace Earverif.Gen.C13",
             "",
             "/-- A layout as the gain calculator sees it (no LFE). Floats are exact `(numerator, denominator)` pairs.",
-            "`spk`: nominal x y z azimuth elevation; `azel`: real azimuth elevation; `allo`: allocentric x y z. -/",
+            "`spk`: nominal x y z azimuth elevation; `azel`: real azimuth elevation; `allo`: allocentric x y z;",
+            "`tree`: channel indices of `AllocentricPanner(positions_for_layout(layout)).st` (planes / rows / leaves). -/",
             "structure Layout where",
             "  name : String",
             "  n : Nat",
@@ -141,6 +151,7 @@ class C13(Spec):
             "  prio : List Nat",
             "  azel : List (List (Int × Nat))",
             "  allo : List (List (Int × Nat))",
+            "  tree : List (List (List Nat))",
             "",
         ]
         names = []
@@ -166,6 +177,8 @@ class C13(Spec):
             out.append("  prio := [%s]" % ", ".join(map(str, t["prio"])))
             out.append("  azel := [%s]" % ", ".join("%s_azel_%d" % (L, i) for i in rng))
             out.append("  allo := [%s]" % ", ".join("%s_allo_%d" % (L, i) for i in rng))
+            out.append("  tree := [%s]" % ", ".join(
+                "[" + ", ".join("[" + ", ".join(map(str, row)) + "]" for row in pl) + "]" for pl in t["tree"]))
             out.append("")
             ctx.count("extract:%s channels" % name, t["n"])
             ctx.count("extract:%s groups" % name, sum(len(g) for g in t["groups"]))
@@ -173,6 +186,14 @@ class C13(Spec):
         out.append("")
         out.append("end Earverif.Gen.C13")
         write_if_changed(GEN + "/C13_Tables.lean", "\n".join(out) + "\n")
+        # Props/C13 imports Props/C05 (per-region exactness, `tables_wellFormed`): regenerate C05's tables too so that
+        # the reused `decide` obligation is about the code as it is now (also under EAR_REPO)
+        try:
+            from . import c05
+
+            c05.SPEC.extract(ctx)
+        except Exception as e:  # C05's own check reports its extraction problems; here only noted
+            ctx.notes.append("C05 table regeneration skipped: %r" % (e,))
 
     # ---------------------------------------------------------------- correspondence
 
@@ -201,10 +222,14 @@ class C13(Spec):
             self._corr_allo(ctx, ask, name, t, allocentric, 1500 if quick else (1 << 13 if n <= 13 else 20000))
             self._corr_lock(ctx, ask, name, lay, t, EgoChannelLockHandler, AlloChannelLockHandler,
                             120 if quick else 1500)
+            self._corr_speaker_tree(ctx, ask, name, t, 600 if quick else (1 << 13 if n <= 13 else 8000))
+            self._corr_render_cart(ctx, ask, name, t, allocentric, 60 if quick else 800)
         self._corr_downmix_synthetic(ctx, ask, 300 if quick else 4000)
         self._corr_allo_synthetic(ctx, ask, allocentric, 300 if quick else 4000)
         self._corr_priority(ctx, ask, EgoChannelLockHandler, 40 if quick else 400)
         self._corr_screen(ctx, ask, 400 if quick else 6000)
+        self._corr_speaker_tree_synthetic(ctx, ask, 200 if quick else 3000)
+        self._corr_compensate(ctx, ask, 200 if quick else 3000)
         self._corr_float_laws(ctx, ask)
         answers = drv.run(lines)
         for a, c in zip(answers, checks):
@@ -492,6 +517,142 @@ class C13(Spec):
                         ctx.disagree("ChannelLockHandler.handle", inp, ans, real)
 
                 ask(line, check)
+
+    # --- AllocentricPanner._speaker_tree on positions[~excluded]; whole Cartesian render with lock + zones
+
+    @staticmethod
+    def _tree_str(st):
+        return "|".join(";".join(" ".join(str(int(leaf[0])) for leaf in row) for row in pl) for pl in st)
+
+    def _st_ask(self, ctx, ask, label, pos, inp):
+        from ear.core.point_source import AllocentricPanner
+
+        try:
+            real = self._tree_str(AllocentricPanner._speaker_tree(np.array(pos, dtype=float).reshape(len(pos), 3)))
+        except AssertionError:
+            real = "none"
+
+        def check(ans):
+            ctx.case(("st", label, repr(inp)), len(pos) > 1)
+            ctx.count("_speaker_tree %s: %s" % (label if label == "synthetic" else "layout subsets",
+                                                "assert (two speakers with same location)" if real == "none" else "tree"))
+            if ans == real:
+                ctx.validated()
+            else:
+                ctx.disagree("AllocentricPanner._speaker_tree", inp, ans, real)
+
+        ask("st %d %s" % (len(pos), " ".join(fb(v) for row in pos for v in row)), check)
+
+    def _corr_speaker_tree(self, ctx, ask, name, t, limit):
+        masks, exhaustive = self._masks(ctx.rng, t["n"], limit)
+        ctx.count("_speaker_tree %s subsets (%s)" % (name, "all 2^%d" % t["n"] if exhaustive else "sampled"), len(masks))
+        for m in masks:
+            pos = [t["allo"][i] for i in range(t["n"]) if not m[i]]
+            self._st_ask(ctx, ask, name, pos, {"layout": name, "excluded": mask_str(m)})
+
+    def _corr_speaker_tree_synthetic(self, ctx, ask, count):
+        rng = ctx.rng
+        vals = [-1.0, -0.5, 0.0, 0.414214, 0.5, 1.0]
+        for _ in range(count):
+            n = rng.randint(0, 8)
+            pos = [[rng.choice(vals), rng.choice(vals), rng.choice([-1.0, 0.0, 1.0])] for _i in range(n)]
+            self._st_ask(ctx, ask, "synthetic", pos, {"positions": pos})
+
+    def _corr_render_cart(self, ctx, ask, name, t, allocentric, count):
+        """Whole `GainCalc.render` for Cartesian point objects with channel lock and zone exclusion against the
+        composed model `renderCartLock` (get_excluded -> row extension/reset -> lock on the final mask ->
+        AllocentricPanner on the remaining loudspeakers -> scatter -> gain/diffuse split)."""
+        rng = ctx.rng
+        gc, lay, _t = S._gain_calc(name)
+        n = t["n"]
+        P = np.array(t["allo"], dtype=float)
+        rows = " ".join(" ".join(fb(v) for v in t["spk"][i]) + " " + " ".join(fb(v) for v in t["allo"][i]) + " %d" % t["prio"][i]
+                        for i in range(n))
+        for _ in range(count):
+            zones = []
+            if rng.random() < 0.65:
+                zones, _k = S.gen_zone_list(rng, t)
+            zmask = [bool(b) for b in gc.zone_exclusion_handler.get_excluded(S.zones_to_objects(zones))]
+            final = [bool(b) for b in allocentric.get_excluded(P, np.array(zmask, dtype=bool))]
+            pos, pk = S.gen_lock_position(rng, P, "a")
+            pos = [min(1.0, max(-1.0, v)) for v in pos]
+            lock, lk = S.gen_lock(rng, P, pos, final, "a")
+            gain = rng.choice([1.0, rng.uniform(0.1, 2.0)])
+            diffuse = rng.choice([0.0, 0.0, rng.random()])
+            o = dict(layout=name, cartesian=True, position=dict(X=pos[0], Y=pos[1], Z=pos[2]), zones=zones,
+                     gain=gain, diffuse=diffuse, lock=lock)
+            try:
+                d, f, _ok = S._render(gc, lay, o)
+                real = (mask_str(final), [float(x) for x in d], [float(x) for x in f])
+            except ValueError as e:
+                real = "none"
+            ztok = []
+            for z in zones:
+                if z["t"] == "c":
+                    ztok.append("c " + " ".join(fb(z[key]) for key in ("minX", "maxX", "minY", "maxY", "minZ", "maxZ")))
+                else:
+                    ztok.append("p " + " ".join(fb(z[key]) for key in ("minAzimuth", "maxAzimuth", "minElevation", "maxElevation")))
+            ltok = "off" if lock == "off" else ("none" if lock is None else fb(lock))
+            line = "rc %d %d %s %d %s %s %s %s %s %s %s" % (FUEL, n, rows, len(zones), " ".join(ztok), fb(pos[0]), fb(pos[1]),
+                                                            fb(pos[2]), ltok, fb(gain), fb(diffuse))
+
+            def check(ans, real=real, o=o, pk=pk, lk=lk, zmask=zmask, final=final):
+                ctx.case(("rc", repr(o)), lock != "off",
+                         sample={"fn": "GainCalc.render vs renderCartLock", "object": o, "final_mask": mask_str(final)})
+                kind = "no zones" if not any(zmask) else ("reset (extension covers all)" if not any(final) else
+                                                           ("row-extended" if final != zmask else "zone mask kept"))
+                if ans == "none" or real == "none":
+                    ok = ans == real
+                    res = "error"
+                else:
+                    w = ans.split()
+                    res = {"U": "unchanged", "L": "locked", "E": "error"}[w[1][0]]
+                    md, mf = [unfb(x) for x in w[2:2 + n]], [unfb(x) for x in w[2 + n:2 + 2 * n]]
+                    ok = w[0] == real[0] and len(md) == n and len(mf) == n and all(
+                        abs(a - b) <= 1e-12 and (a == 0.0) == (b == 0.0)
+                        for a, b in zip(md + mf, real[1] + real[2]))
+                    if ok and w[1][0] == "L":
+                        # the composed model's theorem, observed on the real gains: the locked loudspeaker is not in
+                        # the final mask and carries the whole gain
+                        i = int(w[1][1:])
+                        total = math.sqrt(real[1][i] ** 2 + real[2][i] ** 2)
+                        if final[i] or abs(total - o["gain"]) > 1e-9:
+                            ctx.hit("Cartesian channelLock: locked loudspeaker excluded or not carrying the gain", o,
+                                    {"locked": t["names"][i], "final_mask": mask_str(final), "direct": real[1], "diffuse": real[2]}, [])
+                ctx.count("render cart+lock zones:%s -> %s" % (kind, res))
+                ctx.count("render cart+lock %s" % o["layout"])
+                if ok:
+                    ctx.validated()
+                else:
+                    ctx.disagree("GainCalc.render (Cartesian, lock, zones) vs renderCartLock", o, ans[:400], real)
+
+            ask(line, check)
+
+    def _corr_compensate(self, ctx, ask, count):
+        from ear.core.screen_common import compensate_position
+        from ear.core import bs2051
+
+        rng = ctx.rng
+        lays = {True: bs2051.get_layout("4+7+0").without_lfe, False: bs2051.get_layout("4+5+0").without_lfe}
+        assert "U+045" in lays[True].channel_names and "U+045" not in lays[False].channel_names
+        for _ in range(count):
+            has = rng.random() < 0.8
+            az = rng.choice([rng.uniform(-180, 180), S.nudge(rng, rng.choice([-180.0, -30.0, 30.0, 180.0, 0.0, 20.0, -20.0]))])
+            el = rng.choice([rng.uniform(-90, 90), S.nudge(rng, rng.choice([0.0, 30.0, 90.0, -90.0]))])
+            az = min(180.0, max(-180.0, az))
+            el = min(90.0, max(-90.0, el))
+            real = compensate_position(az, el, lays[has])
+
+            def check(ans, real=real, inp={"U+045": has, "az": az, "el": el}):
+                ctx.case(("cp", repr(inp)), inp["U+045"])
+                ctx.count("compensate_position: layout %s U+045" % ("with" if inp["U+045"] else "without"))
+                a, e = (unfb(x) for x in ans.split())
+                if a == float(real[0]) and e == float(real[1]):
+                    ctx.validated()
+                else:
+                    ctx.disagree("compensate_position", inp, [a, e], [float(real[0]), float(real[1])])
+
+            ask("cp %d %s %s" % (1 if has else 0, fb(az), fb(el)), check)
 
     # --- screen scaling
 
